@@ -116,6 +116,16 @@ CHECKS = {
              "structural fact (kinds, interfaces, fields, args, defaults, descriptions, deprecations, enum values, union members, directive locations/repeatability, roots).",
         note="Trusted: graphql-core build_schema / print_schema as the reference reading of SDL.",
         design="4/C16"),
+    "C17": dict(
+        category="fault_enumeration",
+        technique="runtime monitoring with fault injection: sys.addaudithook file-system monitor + before/after tree snapshot + exception classifier around the real CLI, over an enumerated catalogue of invalid configurations / syntax errors / invalid schemas / invalid operations x pre-existing target states",
+        text="Every documented configuration constraint (2-4 concrete violations each), four syntax-error placements, one invalid schema per graphql-core validation branch and "
+             "one or more invalid operations per specified validation rule (all confirmed invalid by graphql-core in the harness first) are run through the real CLI for both "
+             "strategies with the target absent / empty / holding a previous generation / holding user files. The exception must be the corresponding CodeGenException naming "
+             "the item, and the audit hook must see no create/write/mkdir/remove under the target. Valid configurations (unknown keys, deprecated section, ...) must be accepted "
+             "and reading settings must not mutate the configuration.",
+        note="Trusted: audit hooks see every Python-level file-system mutation; graphql-core decides validity. The catalogue is finite and enumerated completely; it is not a proof over all invalid inputs.",
+        design="4/C17"),
 }
 
 NOT_APPLICABLE = []
